@@ -407,13 +407,15 @@ fn strategy(tier: Tier) -> BoxedStrategy<Case> {
     let maxops = tier.pick(120usize, 500usize);
     (
         prop_oneof![3 => cuckoo_cfg_small(), 2 => cuckoo_cfg()],
-        prop_oneof![5 => Just(HKind::Split), 2 => Just(HKind::Sip), 1 => (0u64..3).prop_map(HKind::Const), 1 => any::<u64>().prop_map(HKind::Mix), 1 => (1u64..9).prop_map(HKind::Mod)],
+        prop_oneof![5 => Just(HKind::Split), 2 => Just(HKind::Sip), 2 => Just(HKind::Ident), 1 => (0u64..3).prop_map(HKind::Const), 1 => any::<u64>().prop_map(HKind::Mix), 1 => (1u64..9).prop_map(HKind::Mod)],
         rng_spec(),
         prop::collection::vec(
             prop_oneof![
                 6 => (0u32..5, 0u32..8).prop_map(|(hi, lo)| KeySpec::Split { hi, lo }),
                 1 => (any::<u32>(), any::<u32>()).prop_map(|(hi, lo)| KeySpec::Split { hi, lo }),
                 1 => (0u8..30).prop_map(KeySpec::Small),
+                // the ends of the hash range (under the Ident hasher the key is the hash the fingerprint is cut from)
+                1 => prop_oneof![Just(u64::MAX), Just(u64::MAX - 1), Just(0u64), Just(1u64), Just(1u64 << 63), Just(u64::MAX >> 1)].prop_map(KeySpec::Raw),
             ],
             1..40,
         ),
@@ -424,11 +426,11 @@ fn strategy(tier: Tier) -> BoxedStrategy<Case> {
 }
 
 pub fn checks() -> Vec<Box<dyn DynCheck>> {
-    vec![Box::new(Random), Box::new(Seq)]
+    vec![Box::new(Random), Box::new(Seq), Box::new(super::giant::Giant)]
 }
 
 pub fn run(ctx: &Ctx) {
-    ctx.set_rule("(a) exhaustive: tiny tables under the Split hasher, every insert/delete sequence over all keys up to a length bound under 4 RNG scripts; (b) generated: cuckoo configurations (bucketsize 2..8, n_buckets 2..32, l_fingerprint 2..64), Split/Sip/Const/Mix/Mod hashers, scripted RNG, histories mixing repeated inserts of one element, deletes of absent elements and deletes after evictions. Oracle after every op: insert result (Ok(true) or Err, never Ok(false); success guaranteed below bucketsize elements), delete result, len, is_empty, query of every universe key, per-class deletable copies on a clone == class-multiset model; failed insert leaves copy counts unchanged. Non-trivial: a duplicate insert of one class and a delete, or an insert that drew RNG words (eviction), or a delete of an absent class on a non-empty filter. Distinct = hash of (config, rng script, op sequence).");
+    ctx.set_rule("(a) exhaustive: tiny tables under the Split hasher, every insert/delete sequence over all keys up to a length bound under 4 RNG scripts; (b) generated: cuckoo configurations (bucketsize 2..8, n_buckets 2..32, l_fingerprint 2..64), Split/Sip/Const/Mix/Mod hashers, scripted RNG, histories mixing repeated inserts of one element, deletes of absent elements and deletes after evictions. Oracle after every op: insert result (Ok(true) or Err, never Ok(false); success guaranteed below bucketsize elements), delete result, len, is_empty, query of every universe key, per-class deletable copies on a clone == class-multiset model; failed insert leaves copy counts unchanged. Non-trivial: a duplicate insert of one class and a delete, or an insert that drew RNG words (eviction), or a delete of an absent class on a non-empty filter. Distinct = hash of (config, rng script, op sequence). giant_tables: tables of 2^28 .. 2^32 buckets under the Ident hasher with 8 to 16 keys spread over the bucket range: absent before insert, present after, len after every insert/delete, absent and is_empty after deleting everything.");
     ctx.assume("fingerprint classes computed behaviourally from single-element filters; copy counts measured by deleting on clones");
     ctx.run_regressions(&[&Random, &Seq]);
     let t = ctx.tier;
@@ -444,6 +446,7 @@ pub fn run(ctx: &Ctx) {
     }
     if !ctx.failed() {
         ctx.run_random(&Random, t.pick(100_000, 2_000_000), move || strategy(t));
+        ctx.run_fixed(&super::giant::Giant, super::giant::cuckoo_cases());
         ctx.require_class("random_history", "eviction", 0.1);
         ctx.require_class("random_history", "duplicate_insert", 0.3);
         ctx.require_class("random_history", "delete_absent_class", 0.2);
